@@ -128,7 +128,7 @@ def class_axioms():
     # A-CLASSES: no class inherits from two unrelated classes among the built-in containers and the classes the sidecar
     # declares (true of the repository's classes under contract; e.g. nothing is both a Spec and a dict)
     containers = ["list", "dict", "set", "tuple", "deque", "re.Pattern", "re.Match"]
-    declared = [x for x in names if x not in BUILTIN]
+    declared = [x for x in names if x not in BUILTIN] + ["BaseException"]
     pairs = set()
     for a in containers + declared:
         for b in containers:
@@ -137,6 +137,14 @@ def class_axioms():
     for a, b in sorted(pairs):
         ia, ib = CL.ids[a], CL.ids[b]
         ax.append(z3.ForAll([c], z3.Not(z3.And(sub(c, ia), sub(c, ib))), patterns=[z3.MultiPattern(sub(c, ia), sub(c, ib))]))
+    # transitivity towards the known ancestors (also for class ids the table does not know)
+    for xn in names:
+        for yn in CL.bases.get(xn, []):
+            ax.append(z3.ForAll([c], z3.Implies(sub(c, CL.ids[xn]), sub(c, CL.ids[yn])), patterns=[sub(c, CL.ids[xn])]))
+    # heap objects are never instances of the scalar classes (those values are not references in this encoding)
+    r_ = z3.Int("r!")
+    ax.append(z3.ForAll([r_], z3.And([z3.Not(sub(typ(r_), CL.ids[k])) for k in ("NoneType", "bool", "int", "float", "str", "type")]),
+                        patterns=[typ(r_)]))
     ax.append(z3.ForAll([c], sub(c, c), patterns=[sub(c, c)]))
     ax.append(z3.ForAll([c], sub(c, CL.ids["object"]), patterns=[sub(c, CL.ids["object"])]))
     return ax
